@@ -60,7 +60,7 @@ type SReq struct {
 	Method  string `json:"method"`
 	Asm     bool   `json:"asm"`
 	GServed bool   `json:"served"` // the generator's own Served(chain), echoed for cross-checking
-	Gen     bool   `json:"-"`      // the request came from the TLC generator (served is meaningful)
+	Gen     bool   `json:"gen"`    // the request came from the TLC generator (served is meaningful)
 }
 
 type shareInput struct {
@@ -74,7 +74,6 @@ func chunkData(id int) string {
 	s := strings.Repeat(fmt.Sprintf("chunk-%02d|", id), 3)
 	return s[:chunkLen]
 }
-
 
 // toWorld renders the share world as a verif/world World. Contents that embed refs (mentions,
 // merge sets) are computed from refs, the refs found by the previous pass.
@@ -214,8 +213,8 @@ func (l *shareLoader) FindHandlerByType(string) (string, any, error) {
 	return "", nil, blobserver.ErrHandlerTypeNotFound
 }
 func (l *shareLoader) AllHandlers() (map[string]string, map[string]any) { return nil, nil }
-func (l *shareLoader) MyPrefix() string                                  { return "/share/" }
-func (l *shareLoader) BaseURL() string                                   { return "http://verif.invalid" }
+func (l *shareLoader) MyPrefix() string                                 { return "/share/" }
+func (l *shareLoader) BaseURL() string                                  { return "http://verif.invalid" }
 func (l *shareLoader) GetHandlerType(p string) string {
 	switch p {
 	case "/bs/":
@@ -271,9 +270,6 @@ func runShare(tw *traceWriter, secring, in string, random, rreq int, seed int64,
 		}
 		if err := json.Unmarshal(data, &inp); err != nil {
 			fatal("bad input:", err)
-		}
-		for i := range inp.Reqs {
-			inp.Reqs[i].Gen = true
 		}
 	}
 	now := int(time.Since(world.Epoch).Seconds())
